@@ -42,6 +42,9 @@ impl PixelDataReader for RleLosslessAdapter {
         if bits_allocated != 8 && bits_allocated != 16 {
             whatever!("BitsAllocated other than 8 or 16 is not supported");
         }
+        if samples_per_pixel == 0 {
+            whatever!("SamplesPerPixel must not be 0");
+        }
         // For RLE the number of fragments = number of frames
         // therefore, we can fetch the fragments one by one
         let nr_frames =
@@ -72,7 +75,8 @@ impl PixelDataReader for RleLosslessAdapter {
             let fragment = &src
                 .fragment(i)
                 .whatever_context("No pixel data found for frame")?;
-            let mut offsets = read_rle_header(fragment);
+            let mut offsets =
+                read_rle_header(fragment).whatever_context("Invalid RLE fragment header")?;
             offsets.push(fragment.len() as u32);
 
             for sample_number in 0..samples_per_pixel {
@@ -80,7 +84,8 @@ impl PixelDataReader for RleLosslessAdapter {
                     // ii is 1, 0, 3, 2, 5, 4 for the example above
                     // This is where the segment order correction occurs
                     let ii = sample_number * bytes_per_sample + byte_offset;
-                    let segment = &fragment[offsets[ii] as usize..offsets[ii + 1] as usize];
+                    let segment = rle_segment(fragment, &offsets, ii)
+                        .whatever_context("Invalid RLE segment offsets")?;
                     let buff = io::Cursor::new(segment);
                     let (_, decoder) = PackBitsReader::new(buff, segment.len())
                         .whatever_context("Failed to read RLE segments")?;
@@ -88,7 +93,8 @@ impl PixelDataReader for RleLosslessAdapter {
                     decoder
                         .take(rows as u64 * cols as u64)
                         .read_to_end(&mut decoded_segment)
-                        .unwrap();
+                        .map_err(|e| Box::new(e) as Box<_>)
+                        .whatever_context("Failed to decode RLE segment")?;
 
                     // Interleave pixels as described in the example above.
                     // in 16-bit, this is:
@@ -111,7 +117,9 @@ impl PixelDataReader for RleLosslessAdapter {
                         .step_by(bytes_per_sample * samples_per_pixel)
                         .enumerate()
                     {
-                        dst[base_offset + dst_index] = decoded_segment[decoded_index];
+                        dst[base_offset + dst_index] = *decoded_segment
+                            .get(decoded_index)
+                            .whatever_context("RLE segment is shorter than the frame")?;
                     }
                 }
             }
@@ -148,6 +156,9 @@ impl PixelDataReader for RleLosslessAdapter {
         if bits_allocated != 8 && bits_allocated != 16 {
             whatever!("BitsAllocated other than 8 or 16 is not supported");
         }
+        if samples_per_pixel == 0 {
+            whatever!("SamplesPerPixel must not be 0");
+        }
         // For RLE the number of fragments = number of frames
         // therefore, we can fetch the fragments one by one
         let nr_frames =
@@ -182,7 +193,8 @@ impl PixelDataReader for RleLosslessAdapter {
         let fragment = &src
             .fragment(frame as usize)
             .whatever_context("No pixel data found for frame")?;
-        let mut offsets = read_rle_header(fragment);
+        let mut offsets =
+            read_rle_header(fragment).whatever_context("Invalid RLE fragment header")?;
         offsets.push(fragment.len() as u32);
 
         for sample_number in 0..samples_per_pixel {
@@ -190,7 +202,8 @@ impl PixelDataReader for RleLosslessAdapter {
                 // ii is 1, 0, 3, 2, 5, 4 for the example above
                 // This is where the segment order correction occurs
                 let ii = sample_number * bytes_per_sample + byte_offset;
-                let segment = &fragment[offsets[ii] as usize..offsets[ii + 1] as usize];
+                let segment = rle_segment(fragment, &offsets, ii)
+                    .whatever_context("Invalid RLE segment offsets")?;
                 let buff = io::Cursor::new(segment);
                 let (_, decoder) = PackBitsReader::new(buff, segment.len())
                     .map_err(|e| Box::new(e) as Box<_>)
@@ -199,7 +212,8 @@ impl PixelDataReader for RleLosslessAdapter {
                 decoder
                     .take(rows as u64 * cols as u64)
                     .read_to_end(&mut decoded_segment)
-                    .unwrap();
+                    .map_err(|e| Box::new(e) as Box<_>)
+                    .whatever_context("Failed to decode RLE segment")?;
 
                 // Interleave pixels as described in the example above.
                 let start = if samples_per_pixel == 3 {
@@ -213,7 +227,9 @@ impl PixelDataReader for RleLosslessAdapter {
                     .step_by(bytes_per_sample * samples_per_pixel)
                     .enumerate()
                 {
-                    dst[base_offset + dst_index] = decoded_segment[decoded_index];
+                    dst[base_offset + dst_index] = *decoded_segment
+                        .get(decoded_index)
+                        .whatever_context("RLE segment is shorter than the frame")?;
                 }
             }
         }
@@ -224,11 +240,26 @@ impl PixelDataReader for RleLosslessAdapter {
 // TODO(#125) implement `encode`
 
 // Read the RLE header and return the offsets
-fn read_rle_header(fragment: &[u8]) -> Vec<u32> {
+fn read_rle_header(fragment: &[u8]) -> Option<Vec<u32>> {
+    // the header is 64 bytes long: number of segments plus 15 offsets
+    if fragment.len() < 64 {
+        return None;
+    }
     let nr_segments = LittleEndian::read_u32(&fragment[0..4]);
+    if nr_segments > 15 {
+        return None;
+    }
     let mut offsets = vec![0; nr_segments as usize];
     LittleEndian::read_u32_into(&fragment[4..4 * (nr_segments + 1) as usize], &mut offsets);
-    offsets
+    Some(offsets)
+}
+
+/// Obtain the given segment of an RLE fragment,
+/// checking the offsets against the fragment.
+fn rle_segment<'a>(fragment: &'a [u8], offsets: &[u32], index: usize) -> Option<&'a [u8]> {
+    let start = *offsets.get(index)? as usize;
+    let end = *offsets.get(index + 1)? as usize;
+    fragment.get(start..end)
 }
 
 /// PackBits Reader from the image-tiff crate
